@@ -17,7 +17,9 @@ FLAVOURS = {
              "libs": "-lrapidcheck",
              "env": {"ASAN_OPTIONS": "detect_leaks=0:abort_on_error=1:detect_stack_use_after_return=0", "UBSAN_OPTIONS": "halt_on_error=1"}},
     "tsan": {"cxx": "clang++", "flags": "-O1 -g -fno-omit-frame-pointer -fsanitize=thread", "libs": "-lrapidcheck -lpthread",
-             "env": {"TSAN_OPTIONS": "halt_on_error=1:second_deadlock_stack=1:report_signal_unsafe=0"}},
+             "env": {"TSAN_OPTIONS": "halt_on_error=1:exitcode=66:second_deadlock_stack=1:report_signal_unsafe=0:history_size=4"}},
+    "rtasan": {"cxx": "clang++", "flags": "-O1 -g -fno-omit-frame-pointer -fsanitize=address,undefined -fno-sanitize-recover=undefined", "libs": "-lrapidcheck -lpthread",
+               "env": {"ASAN_OPTIONS": "detect_leaks=1:abort_on_error=0:exitcode=67", "UBSAN_OPTIONS": "halt_on_error=1:print_stacktrace=1"}},
 }
 
 FAMILIES = {
@@ -30,6 +32,7 @@ FAMILIES = {
     "c14": {"src": "c14.cpp"},
     "containers": {"src": "containers.cpp"},
     "atomicreg": {"src": "atomicreg.cpp"},
+    "rt": {"src": "rt_stress.cpp"},
 }
 
 EXPLORATION_NOTE = ("Trusted base: the vrt runtime's model of std::mutex/timed_mutex/shared_mutex/shared_timed_mutex/condition_variable/atomic "
@@ -66,7 +69,8 @@ PROPS = {
                 "is destroyed exactly once. Exploration only.",
         "assumptions": ["the shared_ptr copy inside the left-right read section is real (unmodelled) code: protocol errors there are the business of C03 and of the real-thread stage",
                         "payload destruction is exempt from the happens-before check because reference counts are unmodelled; liveness is still checked"],
-        "stages": [{"family": "lrcow", "flavour": "plain", "target": "C04", "cases": (600000, 8000000), "maxsec": (40, 400)}],
+        "stages": [{"family": "lrcow", "flavour": "plain", "target": "C04", "cases": (600000, 8000000), "maxsec": (40, 400)},
+                   {"family": "rt", "flavour": "tsan", "target": "RTcow", "cases": (6000, 150000), "maxsec": (20, 400), "stochastic": True, "min_nontrivial_frac": 0.5}],
     },
     "C05": {
         "level": "exploration",
@@ -113,7 +117,8 @@ PROPS = {
                 "element destructors and callbacks re-enter the container (size, add, destroyObjects). The modelled timed_mutex flags any callback or destructor under the lock and any self-deadlock. Exploration only.",
         "assumptions": ["re-entry is not generated while the container itself is being destroyed; weak_ptr resurrection is out of scope", "a missing lock around the std::vector is invisible to the fiber runtime (no scheduling point inside): that class of change is the real-thread/TSan stage's job"],
         "stages": [{"family": "containers", "flavour": "plain", "target": "C16s", "cases": (300000, 4000000), "maxsec": (30, 300)},
-                   {"family": "containers", "flavour": "plain", "target": "C16", "cases": (400000, 6000000), "maxsec": (40, 400)}],
+                   {"family": "containers", "flavour": "plain", "target": "C16", "cases": (400000, 6000000), "maxsec": (40, 400)},
+                   {"family": "rt", "flavour": "tsan", "target": "RTdd", "cases": (6000, 150000), "maxsec": (20, 400), "stochastic": True, "min_nontrivial_frac": 0.5}],
     },
     "C17": {
         "level": "exploration",
@@ -124,7 +129,8 @@ PROPS = {
         "assumptions": ["addType is only generated on names that are present and never removed (the property does not specify orphan tags)", "tags compared as sets over {0,1,2}"],
         "stages": [{"family": "containers", "flavour": "asan", "target": "C17s", "cases": (60000, 1000000), "maxsec": (40, 400)},
                    {"family": "containers", "flavour": "plain", "target": "C17s", "cases": (300000, 3000000), "maxsec": (30, 300)},
-                   {"family": "containers", "flavour": "plain", "target": "C17", "cases": (300000, 4000000), "maxsec": (40, 400)}],
+                   {"family": "containers", "flavour": "plain", "target": "C17", "cases": (300000, 4000000), "maxsec": (40, 400)},
+                   {"family": "rt", "flavour": "tsan", "target": "RTsoh", "cases": (6000, 150000), "maxsec": (20, 400), "stochastic": True, "min_nontrivial_frac": 0.5}],
     },
     "C18": {
         "level": "exploration",
@@ -134,7 +140,8 @@ PROPS = {
                 "every future must become ready exactly once with the value the life-cycle model predicts (first set, else fulfil value, else X{} at destruction); any std::future_error is a violation. Exploration only.",
         "assumptions": ["each key is requested at most once (as the property states)", "consumers poll futures (wait_for(0)) instead of blocking the single OS thread"],
         "stages": [{"family": "containers", "flavour": "plain", "target": "C18s", "cases": (300000, 4000000), "maxsec": (30, 300)},
-                   {"family": "containers", "flavour": "plain", "target": "C18", "cases": (300000, 4000000), "maxsec": (40, 400)}],
+                   {"family": "containers", "flavour": "plain", "target": "C18", "cases": (300000, 4000000), "maxsec": (40, 400)},
+                   {"family": "rt", "flavour": "tsan", "target": "RTdobj", "cases": (6000, 150000), "maxsec": (20, 400), "stochastic": True, "min_nontrivial_frac": 0.5}],
     },
     "C19": {
         "level": "exploration",
@@ -145,7 +152,8 @@ PROPS = {
                 "A crash of the worker (e.g. destroying a moved-from trigger) is minimised by delta debugging and reported. Exploration only.",
         "assumptions": ["one publishing fiber per line (the property speaks of 'the triggering thread')", "the line whose armed trigger is overwritten by move-assignment is not observed (unspecified)",
                         "weak-memory model fixes modification order to execution order (under-approximation of C++11)"],
-        "stages": [{"family": "tripwire", "flavour": "plain", "target": "C19", "cases": (800000, 10000000), "maxsec": (40, 400)}],
+        "stages": [{"family": "tripwire", "flavour": "plain", "target": "C19", "cases": (800000, 10000000), "maxsec": (40, 400)},
+                   {"family": "rt", "flavour": "tsan", "target": "RTtw", "cases": (3000, 40000), "maxsec": (20, 400), "stochastic": True, "min_nontrivial_frac": 0.5}],
     },
     "C12": {
         "level": "exploration",
@@ -164,7 +172,8 @@ PROPS = {
         "text": "Generated programs over T in {Tracked, std::string, int} run with a strict ledger allocator; any destroy/deallocate of null, of a dead or unknown block, any leak at list destruction and any "
                 "construction/destruction imbalance of the payload is a violation. Exploration only.",
         "assumptions": ["list destroyed only after all handles are released (as the property states)"],
-        "stages": [{"family": "rcu", "flavour": "plain", "target": "C13", "cases": (500000, 6000000), "maxsec": (40, 400)}],
+        "stages": [{"family": "rcu", "flavour": "plain", "target": "C13", "cases": (500000, 6000000), "maxsec": (40, 400)},
+                   {"family": "rcu", "flavour": "plain", "target": "C13f", "cases": (300000, 4000000), "maxsec": (30, 300)}],
     },
     "C06": {
         "level": "exploration",
@@ -262,6 +271,7 @@ PROPS["C07"] = {
         {"family": "deferred", "flavour": "plain", "target": "C06", "cases": (200000, 3000000), "maxsec": (25, 300), "args": _W},
         {"family": "rcu", "flavour": "plain", "target": "C12", "cases": (200000, 3000000), "maxsec": (25, 300), "args": _W},
         {"family": "locks", "flavour": "plain", "target": "C02", "cases": (200000, 3000000), "maxsec": (25, 300), "args": _W},
+        {"family": "rt", "flavour": "tsan", "target": "RT", "cases": (12000, 400000), "maxsec": (25, 600), "stochastic": True, "min_nontrivial_frac": 0.5},
     ],
 }
 
